@@ -20,7 +20,7 @@ P
 }
 run_demo() {
   put_demo
-  if [ $mode = pubtest ]; then cargo test --offline --features bincode-codec --test demo 2>&1 | grep -E "^test result|panicked" | head -3
+  if [ $mode = pubtest ]; then cargo test --offline --features bincode-codec,postcard-codec --test demo 2>&1 | grep -E "^test result|panicked" | head -3
   else cargo test --offline --lib "$filt" 2>&1 | grep -E "^test result|^error" | head -3; fi
 }
 echo "== (i) suite with patch"
